@@ -16,6 +16,10 @@
 #include <kernel/lafem/sparse_matrix_bcsr.hpp>
 #include <kernel/lafem/sparse_matrix_banded.hpp>
 #include <kernel/lafem/sparse_layout.hpp>
+#include <kernel/lafem/dense_matrix.hpp>
+#include <kernel/lafem/sparse_matrix_cscr.hpp>
+#include <kernel/lafem/sparse_vector.hpp>
+#include <kernel/lafem/sparse_vector_blocked.hpp>
 #include <map>
 #include <algorithm>
 #include <fcntl.h>
@@ -46,6 +50,14 @@ struct KDVB  { template<class D, class I> using type = DenseVectorBlocked<D, I, 
 struct KCSR  { template<class D, class I> using type = SparseMatrixCSR<D, I>; };
 struct KBCSR { template<class D, class I> using type = SparseMatrixBCSR<D, I, 2, 2>; };
 struct KBAND { template<class D, class I> using type = SparseMatrixBanded<D, I>; };
+struct KDM   { template<class D, class I> using type = DenseMatrix<D, I>; };
+struct KCSCR { template<class D, class I> using type = SparseMatrixCSCR<D, I>; };
+struct KSV   { template<class D, class I> using type = SparseVector<D, I>; };
+struct KSVB  { template<class D, class I> using type = SparseVectorBlocked<D, I, 2>; };
+template<class K> struct HasLayout { static constexpr bool value = false; };
+template<> struct HasLayout<KCSR> { static constexpr bool value = true; };
+template<> struct HasLayout<KBCSR> { static constexpr bool value = true; };
+template<> struct HasLayout<KBAND> { static constexpr bool value = true; };
 
 typedef unsigned int U32;
 typedef unsigned long U64;
@@ -76,6 +88,10 @@ template<class F> static void with_kind(int k, F f)
   case 2: f(KCSR()); break;
   case 3: f(KBCSR()); break;
   case 4: f(KBAND()); break;
+  case 5: f(KDM()); break;
+  case 6: f(KCSCR()); break;
+  case 7: f(KSV()); break;
+  case 8: f(KSVB()); break;
   default: std::cerr << "\n>>> FATAL ERROR: harness: bad kind code\n"; std::abort();
   }
 }
@@ -325,6 +341,44 @@ static bool do_op(Cur& c, std::ostream& o)
       slots[a].obj = m; slots[a].kind = 4; slots[a].dt = dt; slots[a].it = it;
     });
   }
+  else if(op == "mk")
+  {
+    int a = (int)c.i64(), k = (int)c.i64(), dt = (int)c.i64(), it = (int)c.i64(); Index n = c.idx(); long long v = c.i64();
+    need_dead(a);
+    if(k < 5 || k > 8 || (n == 0 && k < 7)) bad("mk: kind/size");
+    with_di(dt, it, [&](auto dtag, auto itag)
+    {
+      typedef typename decltype(dtag)::type D; typedef typename decltype(itag)::type I;
+      if(k == 5)
+      {
+        auto* m = new DenseMatrix<D, I>(n, 2, D(v));
+        fill_arrays<D, I>(*m, v, true, false);
+        slots[a].obj = m;
+      }
+      else if(k == 6)
+      {
+        DenseVector<I, I> ci(n), rp(2), rn(1);
+        DenseVector<D, I> val(n);
+        for(Index i = 0; i < n; ++i) { ci.elements()[i] = I(i % 2); val.elements()[i] = D(v + (long long)i); }
+        rp.elements()[0] = I(0); rp.elements()[1] = I(n); rn.elements()[0] = I(0);
+        slots[a].obj = new SparseMatrixCSCR<D, I>(3, 2, ci, val, rp, rn);
+      }
+      else if(k == 7)
+      {
+        DenseVector<D, I> el(n); DenseVector<I, I> ix(n);
+        for(Index i = 0; i < n; ++i) { el.elements()[i] = D(v + (long long)i); ix.elements()[i] = I(i); }
+        slots[a].obj = new SparseVector<D, I>(n + 3, el, ix, true);
+      }
+      else
+      {
+        DenseVectorBlocked<D, I, 2> el(n); DenseVector<I, I> ix(n);
+        for(Index i = 0; i < 2 * n; ++i) el.template elements<Perspective::pod>()[i] = D(v + (long long)i);
+        for(Index i = 0; i < n; ++i) ix.elements()[i] = I(i);
+        slots[a].obj = new SparseVectorBlocked<D, I, 2>(n + 3, el, ix, true);
+      }
+      slots[a].kind = k; slots[a].dt = dt; slots[a].it = it;
+    });
+  }
   else if(op == "adopt")
   {
     int a = (int)c.i64(), b = (int)c.i64();
@@ -514,14 +568,14 @@ static bool do_op(Cur& c, std::ostream& o)
     int l = (int)c.i64(), a = (int)c.i64(); need_alive(a);
     if(l < 0 || l >= NLAY) bad("lay: slot");
     Box& sa = slots[a]; LBox& sl = lays[l];
-    if(sa.kind < 2) bad("lay: kind");
+    if(sa.kind < 2 || sa.kind > 4) bad("lay: kind");
     int lk = (sa.kind == 4) ? 1 : 0;
     if(sl.alive() && (sl.lk != lk || sl.it != sa.it)) bad("lay: type mismatch");
     with_kind(sa.kind, [&](auto k) { with_di(sa.dt, sa.it, [&](auto dtag, auto itag)
     {
       typedef typename decltype(dtag)::type D; typedef typename decltype(itag)::type I;
       typedef typename decltype(k)::template type<D, I> T;
-      if constexpr(!std::is_same<decltype(k), KDV>::value && !std::is_same<decltype(k), KDVB>::value)
+      if constexpr(HasLayout<decltype(k)>::value)
       {
         typedef SparseLayout<I, T::layout_id> LT;
         T& m = as<decltype(k), D, I>(sa);
@@ -538,13 +592,13 @@ static bool do_op(Cur& c, std::ostream& o)
     LBox& sl = lays[l]; Box& sa = slots[a];
     bool fresh = !sa.alive();
     int kind = fresh ? k0 : sa.kind, dt = fresh ? dt0 : sa.dt;
-    if(kind < 2 || ((kind == 4) != (sl.lk == 1))) bad("mlay: kind mismatch");
+    if(kind < 2 || kind > 4 || ((kind == 4) != (sl.lk == 1))) bad("mlay: kind mismatch");
     if(!fresh && sa.it != sl.it) bad("mlay: index type mismatch");
     with_kind(kind, [&](auto k) { with_di(dt, sl.it, [&](auto dtag, auto itag)
     {
       typedef typename decltype(dtag)::type D; typedef typename decltype(itag)::type I;
       typedef typename decltype(k)::template type<D, I> T;
-      if constexpr(!std::is_same<decltype(k), KDV>::value && !std::is_same<decltype(k), KDVB>::value)
+      if constexpr(HasLayout<decltype(k)>::value)
       {
         typedef SparseLayout<I, T::layout_id> LT;
         LT& L = *static_cast<LT*>(sl.obj);
